@@ -1036,6 +1036,20 @@ def run_arith(case, c):
         for op, fn in (('+', operator.pos), ('-', operator.neg), ('abs', abs)):
             check_op(c, 'unop', op + ':bigint:' + okind(mbig), {'a': describe(mbig), 'op': op}, lambda: R.unop(op, mbig),
                      lambda: fn(ab), [ab], tol=0.0, fresh=True)
+        # remainder of the most negative / most positive C long by +-1, +-2, 3: x % -1 overflows in C (a trap, not a
+        # value); executed in a forked child, values compared where the reference defines them
+        ext = [-(2 ** 63), 2 ** 63 - 1, -(2 ** 63) + 1, 7, -7, 2 ** 62, 0, -1, 1]
+        mext = R.Dense('i', shape, ext[:n])
+        for cdiv in (-1, 1, 2, -2, 3):
+            def _rem(cdiv=cdiv):
+                return list(to_impl(mext) % cdiv)
+            how, obs = isolated(_rem)
+            c.n += 1
+            if how == 'died':
+                c.v('C15:binop:%:bigint:crash', 'matrix(%r) %% %d killed the interpreter (%s)' % (ext[:n], cdiv, obs),
+                    {'a': describe(mext), 'c': cdiv})
+            else:
+                check_binop(c, '%', operator.mod, mext, cdiv)
     # zero-containing matrices for / % ** edge cases
     if n:
         mz = R.Dense(tc, shape, [R.conv(v, tc) for v in ([0, 1, -2, 0, 3, -1, 2, 0, 1][:n])])
